@@ -129,6 +129,22 @@ def reload_wiring(prop):
             check("data_cache_charges_the_state's_counter", st.memory.performance_metrics is st.performance_metrics)
             check("instruction_cache_charges_the_state's_counter", st.instruction_memory.performance_metrics is st.performance_metrics)
             check("penalties_kept", st.memory.miss_penality == 3 and st.instruction_memory.miss_penality == 5)
+        # ... and the caches a (re)load leaves behind are still the configured ones: load_program resets both memory
+        # systems, and reset() rebuilds the cache -- kind, geometry, replacement policy, penalty as the options say
+        for (dk, dp, ip) in (("wb", "plru", "lru"), ("wt", "lru", "plru")):
+            d = opts(True, 1, 1, 4, dk, dp, 3)
+            i = opts(True, 2, 0, 2, "wb", ip, 5)
+            sim = RiscvSimulation(mode="single_stage_pipeline", data_cache=d, instruction_cache=i)
+            stub(RiscvParser, "parse", lambda self_, program, state, **kw: None)
+            sim.load_program("nop")
+            unstub(RiscvParser, "parse")
+            st = sim.state
+            if prop == "C09":
+                check("data_cache_kind_after_a_reload", type(st.memory) is (WriteBackMemorySystem if dk == "wb" else WriteThroughMemorySystem))
+                check_cache("data_cache_after_a_reload_", st.memory, d, st.performance_metrics)
+            else:
+                check("instruction_cache_kind_after_a_reload", type(st.instruction_memory) is InstructionMemoryCacheSystem)
+                check_cache("instruction_cache_after_a_reload_", st.instruction_memory, i, st.performance_metrics)
 
 
 for _p in ("C09", "C11"):
